@@ -295,3 +295,20 @@ Definition weighted_objective_gradient (n : nat) (ow : vec) (gs : list vec) : ve
 Definition affine_mean_gradient (n : nat) (wh : vec) (slopes : list vec) : vec := wvsum n wh slopes.
 Definition affine_sd_gradient (n : nat) (wh f : vec) (slopes : list vec) : vec :=
   sd_grad_times_sd n (bessel wh) wh f slopes.
+
+(* ---- variable scaling ---------------------------------------------------------------------------- *)
+(* VariableScaler.from_optimizer: values * scales + offsets -- what the user's evaluator receives *)
+Definition from_optimizer (s o y : vec) : vec := vadd (vmul y s) o.
+(* slope of  y |-> f (from_optimizer s o y)  for an affine f with slope a (user coordinates) *)
+Definition scale_slope (s a : vec) : vec := vmul s a.
+Definition map_rdata_X (f : vec -> vec) (r : rdata) : rdata :=
+  {| r_X := map f (r_X r); r_f0 := r_f0 r; r_fp := r_fp r |}.
+
+(* ---- EnsembleOptimizer._gradients_from_results --------------------------------------------------- *)
+(* the matrix handed to the optimizer callback: weighted-objective gradient, then the constraint
+   gradients, free columns only (gradients.weighted_objective[mask], gradients.constraints[:, mask]) *)
+Definition optimizer_matrix (mask : list bool) (wg : vec) (cons : list vec) : list vec :=
+  restrict_free mask wg :: map (restrict_free mask) cons.
+
+(* ---- the residual sum of squares, for the least-squares characterisation ----------------------------- *)
+Definition rss (A : mat) (b g : vec) : Q := let e := vsub (mv A g) b in rdot e e.
